@@ -159,6 +159,7 @@ package server
 //@   atcall Dial requires consumedPrefix: len(data) == inpos(conn) - old(inpos(conn)) && (forall k int :: 0 <= k && k < len(data) ==> data[k] == inbyte(conn, old(inpos(conn)) + k))
 //@   atcall Write requires replayIntact: len(data) == inpos(conn) - old(inpos(conn)) && (forall k int :: 0 <= k && k < len(data) ==> data[k] == inbyte(conn, old(inpos(conn)) + k))
 //@   atcall Dial requires relayUnimpeded: !deadlineArmed(conn) && closedconn(conn) == old(closedconn(conn))
+//@   flag perexit
 //@   flag noframe
 
 // ---------------------------------------------------------------------------------------------
